@@ -608,6 +608,14 @@ func suiteUsable(s srvIn, id uint16) bool {
 	return false
 }
 
+func keyNames(ks []tls.VerifC31Key) string {
+	var xs []string
+	for _, k := range ks {
+		xs = append(xs, vh.Hex(k.Name[:4]))
+	}
+	return "[" + strings.Join(xs, " ") + "]"
+}
+
 type detRand struct{ r *bytes.Reader }
 
 func (d detRand) Read(p []byte) (int, error) { return d.r.Read(p) }
@@ -624,6 +632,7 @@ func runKeys(c *vh.Ctx, in input) {
 	rot, life, _ := tls.VerifC31RotationConstants()
 	var ops, outs []string
 	var prev []tls.VerifC31Key
+	var lastSet []tls.VerifC31Key // keys of the most recent SetSessionTicketKeys
 	explicit := in.UserKey != ""
 	for i, op := range in.Ops {
 		now = op.Now
@@ -638,6 +647,10 @@ func runKeys(c *vh.Ctx, in input) {
 			}
 			cfg.SetSessionTicketKeys(ks)
 			explicit = true
+			lastSet = nil
+			for _, b := range ks {
+				lastSet = append(lastSet, tls.VerifC31KeyFromBytes(b))
+			}
 			ops = append(ops, vh.App("KSet", vh.Z(op.Now), vh.List0(ts, "(list N)")))
 			outs = append(outs, "(@nil tkey)")
 			continue
@@ -650,6 +663,15 @@ func runKeys(c *vh.Ctx, in input) {
 		if len(got) == 0 {
 			c.Violation("keys-empty", "ticketKeys returned no key", "case", in)
 			break
+		}
+		if lastSet != nil {
+			same := len(got) == len(lastSet)
+			for j := 0; same && j < len(got); j++ {
+				same = got[j].Name == lastSet[j].Name && got[j].AES == lastSet[j].AES && got[j].HMAC == lastSet[j].HMAC
+			}
+			if !same {
+				c.Violation("set-keys-not-applied", fmt.Sprintf("step %d: after SetSessionTicketKeys with %d keys the connection keys are %s, not the keys that were set (a removed or replaced decrypt-only key keeps opening tickets)", i, len(lastSet), keyNames(got)), "case", in)
+			}
 		}
 		if !explicit {
 			if op.Now-got[0].Created >= rot {
@@ -834,6 +856,9 @@ func runShake(c *vh.Ctx, in input) {
 		dt     int64
 		resume bool // what the property demands
 		useNew bool // present the ticket issued by the previous handshake (with its own session)
+		// earlier SetSessionTicketKeys calls on the SAME Config before keys is set (key history)
+		history    [][][32]byte
+		useForeign bool // present the other server's (kF) ticket with its own session
 	}
 	var scens []scen
 	add := func(name string, keys [][32]byte, m mutIn, dt int64, resume bool) {
@@ -873,6 +898,18 @@ func runShake(c *vh.Ctx, in input) {
 	add("rotated-kept", [][32]byte{kB, kA}, mutIn{Kind: "none"}, 0, true)
 	add("rotated-out", [][32]byte{kB}, mutIn{Kind: "none"}, 0, false)
 	add("rotated-out-2", [][32]byte{kB, kF}, mutIn{Kind: "none"}, 0, false)
+	// key histories through the public API on one Config: the primary key stays while decrypt-only keys are
+	// removed, replaced or reordered; only the keys of the LAST call may open tickets
+	H := func(name string, resume, foreignTicket bool, sets ...[][32]byte) {
+		scens = append(scens, scen{name: name, history: sets[:len(sets)-1], keys: sets[len(sets)-1], mut: mutIn{Kind: "none"}, resume: resume, useForeign: foreignTicket})
+	}
+	H("history-removed-old-key", false, false, [][32]byte{kA}, [][32]byte{kB, kA}, [][32]byte{kB})
+	H("history-removed-old-key", false, false, [][32]byte{kB, kA, kF}, [][32]byte{kB, kF})
+	H("history-replaced-old-key", false, false, [][32]byte{kB, kA}, [][32]byte{kB, kF})
+	H("history-kept-old-key", true, false, [][32]byte{kB, kF, kA}, [][32]byte{kB, kA})
+	H("history-reordered", true, false, [][32]byte{kB, kA}, [][32]byte{kA, kB})
+	H("history-removed-decrypt-key", false, true, [][32]byte{kA, kF}, [][32]byte{kA})
+	H("history-kept-decrypt-key", true, true, [][32]byte{kA, kB, kF}, [][32]byte{kA, kF})
 	add("fresh-boundary", A, mutIn{Kind: "none"}, 7*24*3600, true)
 	add("stale", A, mutIn{Kind: "none"}, 7*24*3600+1, false)
 	// the full handshake that followed the stale ticket issued a new ticket: it must resume
@@ -909,7 +946,16 @@ func runShake(c *vh.Ctx, in input) {
 	var prevIssued *tls.ClientSessionState
 	for _, sc := range scens {
 		now = t0 + sc.dt
-		srv := newServer(sc.keys...)
+		var srv *tls.Config
+		if len(sc.history) > 0 {
+			srv = newServer(sc.history[0]...)
+			for _, ks := range sc.history[1:] {
+				srv.SetSessionTicketKeys(ks)
+			}
+			srv.SetSessionTicketKeys(sc.keys)
+		} else {
+			srv = newServer(sc.keys...)
+		}
 		m := sc.mut
 		expectSuite := ss
 		if sc.useNew {
@@ -920,6 +966,11 @@ func runShake(c *vh.Ctx, in input) {
 			m = mutIn{Kind: "replace", Data: vh.Hex(nt)}
 			cc.override = prevIssued
 			expectSuite = nsuite
+		} else if sc.useForeign {
+			_, _, fsuite := tls.VerifC31SessionTicket(ccF.s)
+			m = mutIn{Kind: "replace", Data: vh.Hex(foreign)}
+			cc.override = ccF.s
+			expectSuite = fsuite
 		} else {
 			cc.override = nil
 		}
@@ -945,6 +996,8 @@ func runShake(c *vh.Ctx, in input) {
 		switch {
 		case o.cErr != nil || o.sErr != nil:
 			c.Violation("ticket-handshake-error", fmt.Sprintf("TLS %#04x, %s (%s): handshake failed instead of falling back: client %v, server %v", vers, sc.name, descMut(m), o.cErr, o.sErr), "case", single)
+		case o.sResum && !sc.resume && strings.HasPrefix(sc.name, "history-"):
+			c.Violation("resumed-removed-key-ticket", fmt.Sprintf("TLS %#04x: scenario %s: after SetSessionTicketKeys removed or replaced the key a ticket was sealed under, the server (keys now %s) still resumed from it", vers, sc.name, keyNames(tls.VerifC31TicketKeys(srv))), "case", single)
 		case o.sResum && !sc.resume && sc.name == "stale":
 			c.Violation("resumed-stale-ticket", fmt.Sprintf("TLS %#04x: server resumed from a ticket issued %d s ago", vers, sc.dt), "case", single)
 		case o.sResum && !sc.resume:
@@ -1448,6 +1501,15 @@ func genKeys(c *vh.Ctx, t0 int64) {
 	k1, k2, k3 := vh.Hex(c.Bytes(32)), vh.Hex(c.Bytes(32)), vh.Hex(c.Bytes(32))
 	hist("", []kopIn{{Now: t0}, {Set: true, Now: t0 + 1, Keys: []string{k1}}, {Now: t0 + 2}, {Now: t0 + 3*day}, {Set: true, Now: t0 + 3*day, Keys: []string{k2, k1}}, {Now: t0 + 9*day}, {Set: true, Now: t0 + 9*day, Keys: []string{k3}}, {Now: t0 + 9*day}})
 	hist(vh.Hex(c.Bytes(32)), []kopIn{{Now: t0}, {Now: t0 + 2*day}, {Set: true, Now: t0 + 2*day, Keys: []string{k1, k2}}, {Now: t0 + 3*day}})
+	// the same Config through histories that keep the primary key while removing / reordering / replacing
+	// decrypt-only keys
+	k0 := vh.Hex(c.Bytes(32))
+	set := func(t int64, ks ...string) kopIn { return kopIn{Set: true, Now: t, Keys: ks} }
+	get := func(t int64) kopIn { return kopIn{Now: t} }
+	hist("", []kopIn{set(t0, k1), get(t0), set(t0+1, k2, k1), get(t0 + 1), set(t0+2, k2), get(t0 + 2)})
+	hist("", []kopIn{set(t0, k1, k0), get(t0), set(t0+1, k1), get(t0 + 1)})
+	hist("", []kopIn{set(t0, k2, k1, k0), get(t0), set(t0+1, k2, k0), get(t0 + 1), set(t0+2, k0, k2), get(t0 + 2)})
+	hist("", []kopIn{set(t0, k2, k1), get(t0), set(t0+1, k2, k3), get(t0 + 1), set(t0+2, k2, k3, k1), get(t0 + 2)})
 	if c.Thorough {
 		for i := 0; i < 20; i++ {
 			var ops []kopIn
